@@ -111,6 +111,83 @@ def gen_queries(rng, gs, C):
         return list(gs)
     return G.obfuscate(rng, gs, 6)
 
+def star_leg_product_lines(rng, tier):
+    """stars with EXACTLY k single legs (k = 2..8, optionally one long leg), in the generic realisation on k+1 qubits and in the
+    compressed one on k qubits (centre X..X, legs Z_i); queries: products of subsets of the legs (all of them, every size),
+    the centre times such a product — the strings the dependency test for many single legs decides"""
+    th = tier == "thorough"
+    out = []
+    for k in range(2, 9):
+        for rep in range(3 if th else 1):
+            reals = []
+            m, edges = G.star_edges([1] * k)
+            reals.append(G.realise(rng, m, edges))
+            reals.append(["X" * k] + ["I" * i + "Z" + "I" * (k - 1 - i) for i in range(k)])
+            if k <= 6:
+                m, edges = G.star_edges([1] * k + [2])
+                reals.append(G.realise(rng, m, edges))
+            for gs in reals:
+                centre, legs = gs[0], gs[1:k + 1]
+                n = len(centre)
+                subsets = [list(range(k))] + [sorted(rng.sample(range(k), sz)) for sz in range(2, k) for _ in range(2 if th else 1)]
+                for S in subsets:
+                    acc = legs[S[0]]
+                    for i in S[1:]:
+                        acc = G.mulstr(acc, legs[i])
+                    for q in (acc, G.mulstr(centre, acc)):
+                        if q == "I" * n:
+                            continue
+                        sh = list(gs); rng.shuffle(sh)
+                        out.append(G.line_of("isin", sh, q))
+                        if len(S) == k or rng.random() < 0.3:
+                            out.append(G.line_of("seldep", sh, ",".join([q, legs[0], G.rs(rng, n)])))
+                            out.append(G.line_of("iseq", sh, ",".join(sh + [q])))
+    return out
+
+# ---- the receiver collection has a recorder attached (the state `animation_anti_commutation_graph` leaves behind): the
+# classification it stores is built by the recording builder.  That builder has recorded defects of its own (property C11:
+# its result can drift from the plain one); they are reproduced exactly by the model `Model/MorphRec.lean`.  Where that model
+# says recorded = plain classification, the membership answers of such a collection are judged like any other.
+def rec_handle(line):
+    from paulie.helpers.recording import RecordGraph
+    inner = line.split(" ", 1)[1]
+    old = impl_classify.coll
+    state = {"first": True}
+    def coll_with_record(arg):
+        c = old(arg)
+        if state["first"]:
+            state["first"] = False
+            c.set_record(RecordGraph())
+        return c
+    impl_classify.coll = coll_with_record
+    try:
+        return impl_classify._with_timeout(lambda: impl_classify.handle(inner))
+    except impl_classify.ReductionTimeout:
+        return "!ReductionTimeout"
+    finally:
+        impl_classify.coll = old
+
+REC_SKIPPED = {"drift-predicted-by-model": 0, "judged": 0}
+def batch_oracle_rec(lines, outs):
+    inner = [l.split(" ", 1)[1] for l in lines]
+    req = []
+    for l in inner:
+        g = l.split(" ")[1]
+        req += [f"classify {g}", f"classifyrec {g}"]
+    rep = run_model(req)
+    def core(x):   # alg/dim/deps/verts/morphs part of a reply
+        return " ".join(p for p in impl_classify.strip_meta(x).split(" ") if p.split("=")[0] in ("alg", "dim", "deps", "verts", "morphs"))
+    same = [not rep[2 * i].startswith("!") and core(rep[2 * i]) == core(rep[2 * i + 1]) for i in range(len(inner))]
+    res = [None] * len(lines)
+    idx = [i for i in range(len(lines)) if same[i]]
+    REC_SKIPPED["drift-predicted-by-model"] += len(lines) - len(idx)
+    REC_SKIPPED["judged"] += len(idx)
+    if idx:
+        sub = batch_oracle([inner[i] for i in idx], [outs[i] for i in idx])
+        for i, w in zip(idx, sub):
+            res[i] = f"receiver with a recorder attached (no drift predicted by the recorder model): {w}" if w else None
+    return res
+
 def build_streams(rng, tier):
     th = tier == "thorough"
     lines, spaces = [], []
@@ -143,6 +220,10 @@ def build_streams(rng, tier):
         Stream("queries", lines, h, **kw),
         Stream("space-enumeration", spaces, h, **kw),
         Stream("all-single-queries-n<=3", allq, h, **kw),
+        Stream("stars-with-exactly-k-single-legs:leg-products", star_leg_product_lines(rng, tier), h, **kw),
+        assembled_stream(lines[:600 if th else 150], **kw),
+        Stream("receiver-with-a-recorder-attached", ["rec " + l for l in (lines[:500 if th else 120] + allq[:300 if th else 80])], rec_handle,
+               batch_oracle=batch_oracle_rec, model=False, tag=lambda l, o: "rec:" + l.split(" ")[1] + ":" + (o if o in ("T", "F") else ("err" if o.startswith("!") else "set"))),
         history_stream("C08", rng, tier),
     ]
 
@@ -159,6 +240,13 @@ def main(tier):
 
 def replay(path):
     r = json.load(open(path)); line = r.get("line")
+    sp = replay_special(PID, line, batch_oracle)
+    if sp is not None:
+        return sp
+    if line.startswith("rec "):
+        out = rec_handle(line); why = batch_oracle_rec([line], [out])[0]
+        print("line:", line); print("implementation:", out); print("oracle:", why or "holds")
+        return 1 if why else 0
     out = impl_classify.handle(line); why = batch_oracle([line], [out])[0]
     print("line:", line); print("implementation:", out); print("model:", run_model([line])[0]); print("oracle:", why or "holds")
     return 1 if why else 0
